@@ -435,15 +435,21 @@ def xz_mutants(rng, f, per_file):
         add('block padding nonzero', block_tweaks={i: {'block_padding': lambda p: (b'\x01' + p[1:]) if p else p}})
         add('header padding nonzero', block_tweaks={i: {'header_padding': lambda p: p[:-1] + b'\x01'}})
         b0 = blocks[i]
-        for fld, d in (('packed', 1), ('packed', -1), ('unpacked', 1), ('unpacked', -1)):
+        # off-by-one values and the special values a narrowing cast, a niche (NonZero) or a sign bit could swallow
+        for fld, d in (('packed', 1), ('packed', -1), ('unpacked', 1), ('unpacked', -1),
+                       ('packed', 'zero'), ('unpacked', 'zero'), ('packed', 1 << 32), ('unpacked', 1 << 32),
+                       ('packed', 1 << 62), ('unpacked', 1 << 62), ('packed', 256), ('unpacked', 65536)):
             nb2 = list(blocks)
             kw = dict(with_packed=b0.with_packed or fld == 'packed', with_unpacked=b0.with_unpacked or fld == 'unpacked',
                       header_pad=b0.header_pad, mb_width=b0.mb_width)
-            if fld == 'packed': kw['packed_override'] = max(0, len(b0.payload) + d)
-            else: kw['unpacked_override'] = max(0, len(b0.content) + d)
+            true = len(b0.payload) if fld == 'packed' else len(b0.content)
+            val = 0 if d == 'zero' else max(0, true + d)
+            if val == true: continue
+            if fld == 'packed': kw['packed_override'] = val
+            else: kw['unpacked_override'] = val
             nb2[i] = XzBlock(b0.payload, b0.content, **kw)
             try:
-                out.append(('declared %s size %+d' % (fld, d), xz_file(nb2, check, mb_width=f['mbw'])))
+                out.append(('declared %s size %s' % (fld, d if d == 'zero' else '%+d' % d), xz_file(nb2, check, mb_width=f['mbw'])))
             except ValueError:
                 pass
     add('index padding nonzero', tweak={'index_padding': lambda p: (p[:-1] + b'\x01') if p else p})
@@ -917,7 +923,7 @@ def run_C09(ck):
             for _ in range(rng.range(0, 20)): pbld.random_sym(rng, 2)
             desc = bad_copy(pbld, None)
             reqs.append('ref_lzma2 lenient=1 chunks=U1:%s/Z3:%d,%d,%d:0:%s' % (hx(pre), lc, lp, pb3, pbld.text()))
-            metas.append({'api': 'lzma2', 'desc': desc, 'produced': pbld.n, 'before_reset': len(pre)})
+            metas.append({'api': 'lzma2', 'desc': desc, 'produced': pbld.n, 'before_reset': len(pre), 'last_sym': pbld.syms[-1]})
     for k in range(60 if quick else 400):
         lc, lp, pb3 = rand_props(rng)
         first = rng.choice(['S', 'R0,%d' % pick_len(rng), 'R1,%d' % pick_len(rng), 'R3,%d' % pick_len(rng), 'M1,%d' % pick_len(rng)])
@@ -933,7 +939,23 @@ def run_C09(ck):
             lc, lp, pb3 = rand_props(rng, lzma2=True)
             pre = 'U1:%s/' % hx(rng.bytes(rng.range(1, 9))) if rng.chance(1, 2) else ''
             reqs.append('ref_lzma2 lenient=1 chunks=%sZ3:%d,%d,%d:0:%s' % (pre, lc, lp, pb3, first))
-            metas.append({'api': 'lzma2', 'desc': 'copy as the first symbol after a dictionary reset: ' + first, 'produced': 0})
+            metas.append({'api': 'lzma2', 'desc': 'copy as the first symbol after a dictionary reset: ' + first, 'produced': 0, 'last_sym': first})
+    # a dictionary-reset chunk in the middle of the stream with more than 64 KiB declared (control bytes 0xE1-0xFF and their
+    # non-resetting siblings): the bad copy comes after >= 65536 bytes and reaches data from before the reset
+    for k in range(24 if quick else 120):
+        lc, lp, pb3 = rand_props(rng, lzma2=True)
+        pre = rng.bytes(rng.range(300, 900))
+        pbld = ProgBuilder(None)
+        pbld.lit(rng.below(256))
+        for _ in range(rng.range(0, 4)): pbld.random_sym(rng, 2)
+        while pbld.n < 65536 + rng.range(0, 3000) * rng.below(2):
+            if rng.chance(1, 8): pbld.lit(rng.below(256))
+            else: pbld.match(pick_dist(rng, min(pbld.maxd(), 64)), rng.range(200, 273))
+        d = pbld.n + rng.range(1, len(pre))
+        pbld.syms.append(rng.choice(['M%d,%d' % (d, pick_len(rng)), 'M%d,2' % d]))
+        first = rng.choice(['U1:%s' % hx(pre), 'Z3:%d,%d,%d:0:%s' % (lc, lp, pb3, '.'.join('L%d' % b_ for b_ in pre))])
+        reqs.append('ref_lzma2 lenient=1 chunks=%s/Z3:%d,%d,%d:0:%s' % (first, lc, lp, pb3, pbld.text()))
+        metas.append({'api': 'lzma2', 'desc': 'match dist %d > %d bytes since the dictionary reset of a > 64 KiB chunk' % (d, pbld.n), 'produced': pbld.n, 'before_reset': len(pre), 'last_sym': pbld.syms[-1], 'fix_first': first[0] == 'Z'})
     for k in range(40 if quick else 300):
         lc, lp, pb3 = rand_props(rng, lzma2=True)
         pbld = ProgBuilder(None)
@@ -959,6 +981,23 @@ def run_C09(ck):
             line = 'raw_lzma lc=%d lp=%d pb=%d dict=%d size=none ops=d:%s' % (lc, lp, pb3, meta['dict'], hx(b))
         else:
             line = 'lzma2_dec in=%s' % hx(b)
+            # the lenient serialiser declares produced + 1 bytes for the chunk that ends in the bad copy; a decoder that
+            # wrongly performs the copy would then still fail (overshoot) unless the copy has length 1.  In half of the
+            # cases declare room for the whole copy, so that accepting it shows as success with fabricated bytes.
+            if meta.get('fix_first'):
+                # the lenient serialiser adds its extra byte to every compressed chunk: take it back from the well-formed first one
+                w = walk_lzma2(b)[0]; un = w['unpacked'] - 1
+                b = b[:w['off']] + bytes([(w['control'] & 0xE0) | ((un - 1) >> 16)]) + struct.pack('>H', (un - 1) & 0xFFFF) + b[w['off'] + 3:]
+                line = 'lzma2_dec in=%s' % hx(b)
+            last = meta.get('last_sym', 'S')
+            blen = 1 if last == 'S' else int(last.split(',')[1])
+            if blen > 1 and rng.chance(1, 2):
+                w = [x for x in walk_lzma2(b) if x['kind'] == 'lzma'][-1]
+                un = w['unpacked'] + blen - 1
+                if un <= (1 << 21):
+                    b = b[:w['off']] + bytes([(w['control'] & 0xE0) | ((un - 1) >> 16)]) + struct.pack('>H', (un - 1) & 0xFFFF) + b[w['off'] + 3:]
+                    line = 'lzma2_dec in=%s' % hx(b); meta = dict(meta, room_for_copy=True)
+                    ck.count('lzma2_room_for_copy')
         cases.append({'line': line, 'meta': meta, 'good_out': out})
         ck.count('api_' + meta['api'])
     run_both(ck, cases)
@@ -1129,6 +1168,14 @@ def run_C12(ck):
     for s in lz: bases.append(('lzma_dec opt=rfh in=%s' % hx(s['bytes']), 'lzma_dec', s['out']))
     for s in l2: bases.append(('lzma2_dec in=%s' % hx(s['bytes']), 'lzma2_dec', s['out']))
     for f in xzs: bases.append(('xz_dec in=%s' % hx(f['bytes']), 'xz_dec', f['out']))
+    # inputs that decode to nothing: the sink still has to be flushed and a failing flush reported
+    empties = ref_encode(['ref_lzma lc=3 lp=0 pb=2 dict=4096 size=none delta=0 prog=E', 'ref_lzma lc=0 lp=2 pb=1 dict=65536 size=0 delta=0 prog=-',
+                          'ref_lzma lc=3 lp=0 pb=2 dict=4096 size=0 delta=0 prog=E'])
+    if any(e is None for e in empties): raise InfraError('reference encoder rejected an empty program')
+    for e in empties: bases.append(('lzma_dec opt=rfh in=%s' % hx(e[0]), 'lzma_dec', b''))
+    bases.append(('lzma2_dec in=00', 'lzma2_dec', b''))
+    bases.append(('xz_dec in=%s' % hx(xz_file([], 1)), 'xz_dec', b''))
+    bases.append(('xz_dec in=%s' % hx(xz_file([XzBlock(b'\x00', b'')], 4)), 'xz_dec', b''))
     for n in ([0, 1, 40, 300] if quick else [0, 1, 40, 300, 5000, 70000]):
         data = rng.bytes(n)
         bases.append(('lzma_enc opt=wh:none in=%s' % hx(data), 'lzma_enc', None))
@@ -1213,6 +1260,23 @@ def run_C13(ck):
         inputs.append(('lzma2_dec in=%s' % hx(b + rng.bytes(rng.below(4))), 'valid'))
         inputs.append(('lzma2_dec in=%s' % hx(b[:rng.range(0, len(b))]), 'truncated'))
         inputs.append(('lzma2_dec in=%s' % hx(corrupt(rng, b)), 'corrupt'))
+    # a compressed chunk that declares a larger compressed size than its payload needs (the decoder stops at the declared
+    # uncompressed size and carries on with whatever follows): the result must still not depend on the refill pattern
+    for s in pool:
+        b = s['bytes']
+        lz = [w for w in walk_lzma2(b) if w['kind'] == 'lzma']
+        for _ in range(2 if lz else 0):
+            w = rng.choice(lz)
+            room = min(65536 - w['payload_len'], 300)
+            if room < 1: continue
+            k = rng.range(1, min(room, 40)) if rng.chance(3, 4) else rng.range(1, room)
+            at = w['off'] + 3
+            mod = b[:at] + struct.pack('>H', w['payload_len'] + k - 1) + b[at + 2:]
+            if rng.chance(1, 2):
+                # the slack really is there: k filler bytes after the payload
+                e = w['off'] + w['hdr_len'] + w['payload_len']
+                mod = mod[:e] + (bytes(k) if rng.chance(1, 2) else rng.bytes(k)) + mod[e:]
+            inputs.append(('lzma2_dec in=%s' % hx(mod), 'slack'))
     small = [p for p in pool if len(p['bytes']) < 2000] or pool
     for f in gen_xz_files(rng, 25 if quick else 150, small):
         inputs.append(('xz_dec in=%s' % hx(f['bytes']), 'valid'))
@@ -1440,10 +1504,50 @@ def run_C16(ck):
                 cases.append({'line': 'stream opt=%s calls=%s' % (sopt, ';'.join(calls)), 'meta': {'kind': kind, 'style': s['style'], 'n': s['n'], 'opt': sopt}, 'n': s['n'], 'style': s['style'],
                               'kind': kind, 'true_out': s['out'], 'valid_len': len(b)})
                 ck.count('kind_' + kind)
+    # the declared size falls strictly inside a match: the copy carries the output past the size without ever equalling it;
+    # the size has then been reached, so nothing after the symbols of P1 (plus the 20-byte look-ahead) may be consumed
+    reqs, metas = [], []
+    for k in range(24 if quick else 200):
+        lc, lp, pb = rand_props(rng)
+        pbld = random_program(rng, rng.range(1, 25), 4096, lit_bias=rng.choice([1, 3]))
+        if pbld.n == 0: pbld.lit(rng.below(256))
+        before = pbld.n
+        ln = rng.range(3, 60)
+        if rng.chance(1, 3) and pbld.reps[0] <= pbld.maxd(): pbld.rep(0, ln)
+        else: pbld.match(pick_dist(rng, pbld.maxd()), ln)
+        cut = before + rng.range(1, ln - 1)
+        p1 = pbld.text(False)
+        for _ in range(rng.range(100, 220)): pbld.lit(rng.below(256))
+        hdr = 'lc=%d lp=%d pb=%d dict=%d' % (lc, lp, pb, rng.choice([0, 4096, 65536]))
+        reqs.append('ref_lzma %s size=%d delta=0 prog=%s' % (hdr, before + ln, p1))
+        reqs.append('ref_lzma %s size=%d delta=0 prog=%s' % (hdr, cut, pbld.text(True)))
+        metas.append(cut)
+    encs = ref_encode(reqs)
+    for k, cut in enumerate(metas):
+        e1, e2 = encs[2 * k], encs[2 * k + 1]
+        if e1 is None or e2 is None: raise InfraError('reference encoder rejected a cut-in-match program')
+        l1, b = len(e1[0]), e2[0]
+        for sopt, hdr in (('rfh', 13), rng.choice([('rhp:%d' % cut, 13), ('up:%d' % cut, 5)])):
+            data = b
+            if hdr == 5: data = b[:5] + b[13:]
+            elif sopt.startswith('rhp'): data = b[:5] + rng.bytes(8) + b[13:]
+            lens = chunkings(rng, len(data), rng.choice(['whole', 'random', 'bytes', 'single']))
+            if rng.chance(1, 3):
+                kk = rng.choice([7, 9, 17, 18, 34, 51, 3, 13]); lens = [kk] * (len(data) // kk + 1)
+            calls = []
+            for p_ in pieces(data, lens):
+                if not p_: continue
+                calls.append('W:%s' % hx(p_)); calls.append('g')
+            for _ in range(rng.range(1, 3)):
+                calls.append('w:%s' % hx(rng.bytes(rng.range(1, 30)))); calls.append('g')
+            calls.append('x')
+            cases.append({'line': 'stream opt=%s calls=%s' % (sopt, ';'.join(calls)), 'meta': {'kind': 'cut_in_match', 'n': cut, 'opt': sopt}, 'n': cut, 'style': 'cut',
+                          'kind': 'cut_in_match', 'true_out': None, 'valid_len': l1 - (13 - hdr)})
+            ck.count('kind_cut_in_match')
     run_both(ck, cases)
     for c in cases:
         res = c['r'].get('res', '').split(';')
-        ck.note_case(c['line'], 'w:err' in res or any(x.startswith('W:err') for x in res) or c['kind'] == 'overlong')
+        ck.note_case(c['line'], 'w:err' in res or any(x.startswith('W:err') for x in res) or c['kind'] in ('overlong', 'cut_in_match'))
         def oracle(c):
             calls = c['r'].get('res', '').split(';')
             if any('panic' in x for x in calls): return 'a call sequence panicked'
@@ -1469,6 +1573,9 @@ def run_C16(ck):
                     if failed and x != 'f:ok': return 'flush after a failed write returned %s' % x
                 elif x.startswith('x:'):
                     if failed and x != 'x:err': return 'finish after a failed write did not return an error'
+            if c['kind'] == 'cut_in_match':
+                eaten = sum(int(x[2:]) for x in calls if x.startswith('w:') and x[2:].isdigit()) + sum(int(x.split(':')[2]) for x in calls if x.startswith('W:') and x.split(':')[2].isdigit())
+                if eaten > c['valid_len'] + 20: return 'writes kept consuming input (%d bytes) after a match carried the output past the declared size (reached by input byte %d)' % (eaten, c['valid_len'])
             if c['kind'] == 'overlong':
                 # the declared size is reached inside the input: nothing after it may be consumed or change the output
                 if calls[-1] != 'x:ok': return 'stream with data after its declared size did not finish successfully'
